@@ -31,6 +31,9 @@ Init == def = None /\ conds = <<>> /\ hist = <<>>
 \* a clause has one expression per actual argument; for a variadic target goom requires at least as
 \* many expressions as the function has parameters (i.e. a non-empty tail), cf. checkParams
 Arities == IF Sig.variadic THEN (Sig.fixed + 1)..(Sig.fixed + MaxTail) ELSE {Sig.fixed}
+\* ... but only where the configuration STARTS (CreateWhen / checkParams): a clause added to an existing configuration may name
+\* exactly the fixed parameters - the condition "called without variadic arguments" (for a target without fixed parameters: When())
+LaterArities == IF Sig.variadic THEN Sig.fixed..(Sig.fixed + MaxTail) ELSE {Sig.fixed}
 Tuples(n) == [1..n -> ExprSet]
 \* the actual-argument lists of the call domain
 Calls == {[fixed |-> f, tail |-> t] : f \in [1..Sig.fixed -> V],
@@ -107,7 +110,7 @@ CallAll == /\ (def # None \/ conds # <<>>)
 Closed == hist # <<>> /\ hist[Len(hist)].op = "CallAll"
 Next == /\ ~Closed
         /\ \/ Default
-           \/ \E n \in Arities, r \in R : \E es \in Tuples(n) : AddWhen(es, r)
+           \/ \E n \in (IF def # None \/ conds # <<>> THEN LaterArities ELSE Arities), r \in R : \E es \in Tuples(n) : AddWhen(es, r)
            \/ \E n \in Arities, r \in R : \E t1 \in Tuples(n), v2 \in V :
                   /\ t1[1].k = "val" /\ t1[1].v < v2 /\ \A i \in 2..n : t1[i].k # "in"
                   /\ AddIn(t1, [t1 EXCEPT ![1] = [k |-> "val", v |-> v2]], r)
